@@ -2,6 +2,7 @@ package syntax
 
 import (
 	"context"
+	"fmt"
 	"io"
 	"os"
 	"path"
@@ -81,7 +82,7 @@ func ParseFileRecursively(file string) (<-chan directives.File, func(context.Con
 	return cpr.Produce(func(ctx context.Context, ch chan<- directives.File) error {
 		wg, ctx := errgroup.WithContext(ctx)
 		wg.Go(func() error {
-			res, err := parseRec(ctx, wg, ch, file)
+			res, err := parseRec(ctx, wg, ch, file, nil)
 			if err != nil {
 				return err
 			}
@@ -96,7 +97,18 @@ type Result struct {
 	Err  error
 }
 
-func parseRec(ctx context.Context, wg *errgroup.Group, resCh chan<- directives.File, file string) (directives.File, error) {
+func parseRec(ctx context.Context, wg *errgroup.Group, resCh chan<- directives.File, file string, ancestors []os.FileInfo) (directives.File, error) {
+	info, err := os.Stat(file)
+	if err != nil {
+		return directives.File{}, err
+	}
+	for _, ancestor := range ancestors {
+		if os.SameFile(ancestor, info) {
+			return directives.File{}, fmt.Errorf("include cycle: %s is included, directly or indirectly, by itself", file)
+		}
+	}
+	// the slice is shared with concurrently running siblings: always copy
+	ancestors = append(ancestors[:len(ancestors):len(ancestors)], info)
 	text, err := os.ReadFile(file)
 	if err != nil {
 		return directives.File{}, err
@@ -109,7 +121,7 @@ func parseRec(ctx context.Context, wg *errgroup.Group, resCh chan<- directives.F
 		if inc, ok := d.Directive.(directives.Include); ok {
 			file := path.Join(filepath.Dir(file), inc.IncludePath.Content.Extract())
 			wg.Go(func() error {
-				res, err := parseRec(ctx, wg, resCh, file)
+				res, err := parseRec(ctx, wg, resCh, file, ancestors)
 				if err != nil {
 					return err
 				}
